@@ -567,6 +567,19 @@ func (ri *RedisInput) sendOutput(wait usync.WaitCloser, reader ChannelReader) {
 	ctx, cancel := context.WithCancel(wait.Context())
 	defer cancel()
 
+	if !reader.IsAof() {
+		// a snapshot (fresh or cached) is about to be replayed over the target : from the
+		// first key on, the stored position no longer describes the target. If the replay
+		// does not complete, the next run must find no position (and replay a snapshot),
+		// not continue the log from the old offset on a half-replaced data set.
+		err := ri.output.ResetStartPoint(ctx, append([]string{reader.RunId()}, ri.RunIds()...))
+		if err != nil {
+			ri.logger.Errorf("output ResetStartPoint error : reader(%s, %d), err(%v)", reader.RunId(), reader.Left(), err)
+			wait.Close(err)
+			return
+		}
+	}
+
 	err := ri.output.Send(ctx, reader)
 	wait.Close(err)
 }
